@@ -113,6 +113,9 @@ type Script struct {
 	// MutateAfterSend: every sender overwrites its message in place as soon as
 	// the send has returned (legal re-use; the log keeps a snapshot).
 	MutateAfterSend bool `json:"mutate_after_send,omitempty"`
+	// MutateAfterRecv: every receiver scribbles over the message it received
+	// (after the log has taken a snapshot).
+	MutateAfterRecv bool `json:"mutate_after_recv,omitempty"`
 	// CancelAfterClient cancels the caller's context once the client actors
 	// are done (what an application does when it abandons a stream).
 	CancelAfterClient bool `json:"cancel_after_client,omitempty"`
@@ -197,7 +200,11 @@ type Run struct {
 	// OnRecv, if set, is called with every message the client receives (fresh object).
 	OnRecv func(m *tpb.Message)
 	OnHRecv func(m *tpb.Message)
-	Dest func() *tpb.Message // receive destination factory (default: new(Message))
+	Dest  func() *tpb.Message // client receive destination factory (default: new(Message))
+	HDest func() *tpb.Message // handler receive destination factory
+	// the very objects handed to / obtained from the library, in order (C06)
+	objMu                                      sync.Mutex
+	CSentObjs, HSentObjs, CRecvObjs, HRecvObjs []*tpb.Message
 	// streamDescOverride replaces the client-side stream descriptor (raw clients
 	// may claim other streaming flags than the method has).
 	streamDescOverride *grpc.StreamDesc
@@ -319,6 +326,17 @@ func (s *Service) NewRun(sc *Script, carrier string) *Run {
 
 func (s *Service) Forget(r *Run) { s.runs.Delete(r.ID) }
 
+// peek finds the run without counting unknown ids.
+func (s *Service) peek(ctx context.Context) *Run {
+	md, _ := metadata.FromIncomingContext(ctx)
+	if v := md.Get(runKey); len(v) > 0 {
+		if r, ok := s.runs.Load(v[len(v)-1]); ok {
+			return r.(*Run)
+		}
+	}
+	return nil
+}
+
 func (s *Service) lookup(ctx context.Context) *Run {
 	md, _ := metadata.FromIncomingContext(ctx)
 	v := md.Get(runKey)
@@ -349,6 +367,9 @@ var ScriptedDesc = grpc.ServiceDesc{
 
 func scriptedUnaryHandler(srv interface{}, ctx context.Context, dec func(interface{}) error, interceptor grpc.UnaryServerInterceptor) (interface{}, error) {
 	in := new(tpb.Message)
+	if r := srv.(*Service).peek(ctx); r != nil {
+		in = r.newHDest()
+	}
 	if err := dec(in); err != nil {
 		return nil, err
 	}
@@ -396,10 +417,7 @@ func (s *Service) unary(ctx context.Context, req *tpb.Message) (resp *tpb.Messag
 			close(r.handlerDone)
 		}
 	}()
-	r.rec(Event{Who: "h", Op: "recv", Msg: req})
-	if r.OnHRecv != nil {
-		r.OnHRecv(req)
-	}
+	r.rec(Event{Who: "h", Op: "recv", Msg: r.recvd(true, req)})
 	if r.OnHandler != nil {
 		r.OnHandler(ctx, r, nil)
 	}
@@ -407,6 +425,9 @@ func (s *Service) unary(ctx context.Context, req *tpb.Message) (resp *tpb.Messag
 	err = r.S.Ret.Err(ctx)
 	if err == nil {
 		resp = r.S.Resp
+		if resp != nil {
+			r.noteObj(&r.HSentObjs, resp)
+		}
 	}
 	return resp, err
 }
@@ -460,15 +481,15 @@ func (r *Run) runHandlerOps(ctx context.Context, stream grpc.ServerStream) {
 			if stream == nil {
 				continue
 			}
-			m := new(tpb.Message)
+			m := r.newHDest()
 			r.HRecvStarted.Add(1)
 			r.rec(Event{Who: "h", Op: "recv", Call: true})
 			var err error
 			pan := guard(func() { err = stream.RecvMsg(m) })
-			if err != nil {
+			if err != nil || pan != "" {
 				m = nil
-			} else if r.OnHRecv != nil {
-				r.OnHRecv(m)
+			} else {
+				m = r.recvd(true, m)
 			}
 			r.rec(Event{Who: "h", Op: "recv", Msg: m, Err: err, Pan: pan})
 		case "recvall":
@@ -476,15 +497,15 @@ func (r *Run) runHandlerOps(ctx context.Context, stream grpc.ServerStream) {
 				continue
 			}
 			for {
-				m := new(tpb.Message)
+				m := r.newHDest()
 				r.HRecvStarted.Add(1)
 				r.rec(Event{Who: "h", Op: "recv", Call: true})
 				var err error
 				pan := guard(func() { err = stream.RecvMsg(m) })
-				if err != nil {
+				if err != nil || pan != "" {
 					m = nil
-				} else if r.OnHRecv != nil {
-					r.OnHRecv(m)
+				} else {
+					m = r.recvd(true, m)
 				}
 				r.rec(Event{Who: "h", Op: "recv", Msg: m, Err: err, Pan: pan})
 				if err != nil || pan != "" {
@@ -496,6 +517,7 @@ func (r *Run) runHandlerOps(ctx context.Context, stream grpc.ServerStream) {
 				continue
 			}
 			msg, snap := r.sendArg(op.Msg)
+			r.noteObj(&r.HSentObjs, msg)
 			r.rec(Event{Who: "h", Op: "send", Call: true, Msg: snap})
 			var err error
 			pan := guard(func() { err = stream.SendMsg(msg) })
@@ -653,6 +675,40 @@ func allStacks() string {
 	}
 }
 
+func (r *Run) noteObj(list *[]*tpb.Message, m *tpb.Message) {
+	r.objMu.Lock()
+	*list = append(*list, m)
+	r.objMu.Unlock()
+}
+
+// recvd handles a successfully received object: log snapshot, callbacks, optional scribble.
+func (r *Run) recvd(handler bool, m *tpb.Message) *tpb.Message {
+	if handler {
+		r.noteObj(&r.HRecvObjs, m)
+		if r.OnHRecv != nil {
+			r.OnHRecv(m)
+		}
+	} else {
+		r.noteObj(&r.CRecvObjs, m)
+		if r.OnRecv != nil {
+			r.OnRecv(m)
+		}
+	}
+	if r.S.MutateAfterRecv {
+		snap := proto.Clone(m).(*tpb.Message)
+		mutateMsg(m)
+		return snap
+	}
+	return m
+}
+
+func (r *Run) newHDest() *tpb.Message {
+	if r.HDest != nil {
+		return r.HDest()
+	}
+	return new(tpb.Message)
+}
+
 // checkLead: done = sends completed by this sender (including the one that
 // just returned), started = receives the peer had started when it returned.
 // Reading "started" after the return can only make the bound looser.
@@ -719,14 +775,17 @@ func (r *Run) newDest() *tpb.Message {
 
 func (r *Run) execUnary(cc grpc.ClientConnInterface, ctx context.Context, opts []grpc.CallOption) {
 	resp := r.newDest()
-	r.rec(Event{Who: "cs", Op: "invoke", Call: true, Msg: r.S.UnaryReq})
+	req, snap := r.sendArg(r.S.UnaryReq)
+	r.noteObj(&r.CSentObjs, req)
+	r.rec(Event{Who: "cs", Op: "invoke", Call: true, Msg: snap})
 	var err error
-	pan := guard(func() { err = cc.Invoke(ctx, Unary.Method(), r.S.UnaryReq, resp, opts...) })
+	pan := guard(func() { err = cc.Invoke(ctx, Unary.Method(), req, resp, opts...) })
+	if r.S.MutateAfterSend {
+		mutateMsg(req)
+	}
 	if err == nil && pan == "" {
 		r.UnaryResp = resp
-		if r.OnRecv != nil {
-			r.OnRecv(resp)
-		}
+		resp = r.recvd(false, resp)
 		r.rec(Event{Who: "cs", Op: "invoke", Msg: resp, Pan: pan})
 	} else {
 		r.rec(Event{Who: "cs", Op: "invoke", Err: err, Pan: pan})
@@ -774,6 +833,7 @@ func (r *Run) runClientOps(who string, st grpc.ClientStream, ops []Op) {
 		switch op.Op {
 		case "send":
 			msg, snap := r.sendArg(op.Msg)
+			r.noteObj(&r.CSentObjs, msg)
 			r.rec(Event{Who: who, Op: "send", Call: true, Msg: snap})
 			var err error
 			pan := guard(func() { err = st.SendMsg(msg) })
@@ -794,10 +854,10 @@ func (r *Run) runClientOps(who string, st grpc.ClientStream, ops []Op) {
 			r.rec(Event{Who: who, Op: "recv", Call: true})
 			var err error
 			pan := guard(func() { err = st.RecvMsg(m) })
-			if err != nil {
+			if err != nil || pan != "" {
 				m = nil
-			} else if r.OnRecv != nil {
-				r.OnRecv(m)
+			} else {
+				m = r.recvd(false, m)
 			}
 			r.rec(Event{Who: who, Op: "recv", Msg: m, Err: err, Pan: pan})
 		case "recvall": // receive until an error (incl. io.EOF)
@@ -807,10 +867,10 @@ func (r *Run) runClientOps(who string, st grpc.ClientStream, ops []Op) {
 				r.rec(Event{Who: who, Op: "recv", Call: true})
 				var err error
 				pan := guard(func() { err = st.RecvMsg(m) })
-				if err != nil {
+				if err != nil || pan != "" {
 					m = nil
-				} else if r.OnRecv != nil {
-					r.OnRecv(m)
+				} else {
+					m = r.recvd(false, m)
 				}
 				r.rec(Event{Who: who, Op: "recv", Msg: m, Err: err, Pan: pan})
 				if err != nil || pan != "" {
